@@ -33,7 +33,8 @@ PROPS = {
          "stale separators and raises ValueError only if no key qualifies (order view: least/greatest key and key-set summaries of "
          "the children, node-local); _Tree.keys hands the lazy sequence exactly the requested interval (converted min, the overall "
          "smallest / largest key for an exclusive omitted bound, unchanged flags, the start leaf found with the converted min); C: the "
-         "searches that locate a range end are exact (F-SEARCH on Bucket_findRangeEnd / BTree_findRangeEnd, integer-keyed units). "
+         "searches that locate a range end are exact (F-SEARCH on Bucket_findRangeEnd / BTree_findRangeEnd, integer-keyed units) and "
+         "Bucket_findRangeEnd returns the exact end of the range on a leaf (least key >= / > b, greatest key <= / < b, 0 iff none). "
          "Bounded: _Tree.minKey, the lazy sequences (_TreeItems / BTreeItems), tree-level range search "
          "of both implementations on every reached shape incl. stale separators and None as the smallest key (range_rt).",
          "A1, A2, A7; _Tree.minKey of a child subtree is an assumed contract in the order view; recorded finding: empty-leaf "
@@ -64,10 +65,12 @@ PROPS = {
          'Proved for all strictly ascending operand sequences: Python union, intersection and difference return a new, strictly sorted container whose key set is exactly the mathematical result, None rules, operands unmodified; cursor and prefix-set lemmas proved; every loop head carries a vacuity guard (which found and removed an unsoundness of the earlier proofs, DESIGN 12.1). C: the set-algebra entry points access operand vectors only on activated nodes (T-USE). Bounded: C results, operators, in-place forms, plain iterables, lazy views, stored/ghost operands (setop_rt).',
          'A1-A4b, A7; _SetIteration.__init__ is an ASSUMED contract; five recorded findings (duplicates, reflected operators, ^= with duplicates, generators, rsub with mappings)', "7/C10 and 12"),
  "C11": (True, "other", T_C + BOUNDED,
-         "Proved per translation unit (bit-vector validity over the declared key type): the pile order of the most significant "
-         "radix pass agrees with KEY_TYPE's order. Bounded: everything else of multiunion - distribution passes, quicksort, uniq, "
+         "Proved per translation unit: (F-SORT, bit-vector validity over the declared key type) the pile order of the most significant "
+         "radix pass agrees with KEY_TYPE's order; (F-UNIQ) uniq(out, in, n) - the step that makes the sorted vector duplicate-free - "
+         "from its real body for every n and content: strictly ascending output, same key set as the input, copies and writes in "
+         "bounds. Bounded: everything else of multiunion - distribution passes, quicksort, "
          "gather, Python fallback (multiunion_rt, both sides of the 800-element switch, extremes, top-bit keys).",
-         "A5, A7; the lemma assumes the other passes are stable distribution sorts (bounded)", "7/C11"),
+         "A5, A6, A7; F-SORT assumes the other passes are stable distribution sorts, F-UNIQ assumes its input ascending (both bounded)", "7/C11 and 13.2b"),
  "C12": (True, "proof", T_P + BOUNDED,
          'Proved (Python): weightedUnion / weightedIntersection from their real bodies with the real MERGE and apply_weight inlined: None rules and weights, new strictly sorted container of the documented kind, exact key set, and value[r] == v1*w1 + v2*w2 (set member counts one, lone key v*w) for every result position incl. the operand swap; value arithmetic is uninterpreted (+ commutative), so the clause is the formula itself for every numeric family. Bounded: the C implementation, None keys, all operand kinds (weighted_rt).',
          'A1, A2, A7; attached:* obligations tie MERGE/MERGE_WEIGHT/MERGE_DEFAULT to _module_builder/_datatypes as read from source; _SetIteration.__init__ assumed', "7/C12 and 12"),
